@@ -72,7 +72,7 @@ var c03ids = []string{"fragment-renders", "sql-means-query", "inline-numbers-are
 var c04ids = []string{"inline-ok-implies-param-ok", "param-count", "param-no-inline-values", "param-values-in-order", "param-substitution-equals-inline",
 	"param-means-inline", "same-outcome-for-same-kinds", "sql-text-independent-of-values", "param-count-independent-of-values"}
 
-const nSQLForms = 28
+const nSQLForms = 30
 
 func sqlRuns(thorough bool, concrete int) []hrun {
 	var r []hrun
@@ -82,7 +82,8 @@ func sqlRuns(thorough bool, concrete int) []hrun {
 	r = append(r, hrun{Harness: "SQLTree", Params: P("D", 1, "LEAVES", 1)})
 	r = append(r, hrun{Harness: "SQLTree", Params: P("D", 2, "LEAVES", 0)})
 	if thorough {
-		r = append(r, hrun{Harness: "SQLTree", Params: P("D", 2, "LEAVES", 1)})
+		r = append(r, hrun{Harness: "SQLTree", Params: P("D", 2, "LEAVES", 2)})
+		r = append(r, hrun{Harness: "SQLTree", Params: P("D", 2, "LEAVES", 1), Seconds: 900})
 	}
 	return r
 }
